@@ -176,7 +176,7 @@ pub fn null_check(known: &[String], c: &NullCase, info: &mut CaseInfo) -> Result
 
 pub fn run_c19(ctx: &mut Ctx) {
     let known = ctx.known.clone();
-    let n = ctx.count(500_000, 5_000_000);
+    let n = ctx.count(500_000, 12_000_000);
     ctx.run("lane-arithmetic", n, null_strategy(), |c, i| null_check(&known, c, i));
     let n = ctx.count(60_000, 1_000_000);
     ctx.run("operation-chains", n, chain_strategy(), chain_check);
